@@ -40,8 +40,8 @@ func refIntegrity(raw, key []byte) (verdict bool, hasMI bool) {
 }
 
 type c04Case struct {
-	Hex  string   `json:"hex"` // message bytes
-	Key  string   `json:"key"` // hex
+	Hex  string   `json:"hex"`            // message bytes
+	Key  string   `json:"key"`            // hex
 	Kind string   `json:"kind,omitempty"` // "" verification / AddTo, "refuse", "longterm"
 	Cred []string `json:"cred,omitempty"`
 }
